@@ -804,13 +804,11 @@ fn id_atoms() -> Vec<Expr> {
 fn mini_core() -> Vec<Expr> {
     vec![
         gt(col("a"), int(0)),
-        le(col("c"), text("ab")),
         lt(col("a"), col("b")),
         is_null(col("a")),
         in_list(col("a"), vec![int(0), int(2)]),
         between(col("b"), float(0.5), float(1.0)),
         like(col("c"), text("a%")),
-        gt(col("b"), null()),
         eq(col("a"), int(1)),
         eq(col("c"), text("a")),
     ]
@@ -823,7 +821,7 @@ impl Check for C14 {
         let mut s = Spec::new(
             "C14",
             "exploration",
-            "a case is one (predicate, table, observation form): table = full cross product a{NULL,-1,0,1,2} x b{NULL,-1.0,0.5,1.0,2.0} x c{NULL,'','a','ab','b'} (125 rows) with id PRIMARY KEY (t), plain id (n), or PRIMARY KEY plus secondary indexes on a and c (x); form = `SELECT id FROM tb WHERE p` (returned id set vs rows where the model says TRUE) or `SELECT id, p FROM tb WHERE 1=1` (TRUE/FALSE/NULL per row). Predicates: every atom of refmodel atoms(schema, Consts::c14()) (comparisons col/const/NULL/col-col x 6 operators, IS [NOT] NULL, [NOT] IN with/without NULL, [NOT] BETWEEN with/without NULL bound, [NOT] LIKE) and its NOT, IS [NOT] NULL over every atom, 21 id-column atoms (index-eligible) alone, negated and AND/OR-combined with the core in both operand orders, all NOT/AND/OR trees to the stated depth over the 40-atom core (quick: depth<=1 + one outer NOT; thorough: depth<=1 over all atoms, depth<=2 over the core, time-capped), and the B passes = AND/OR trees over the atoms without the constructs of the recorded findings (quick: depth<=1 over all such atoms, depth<=2 over a 10-atom mini core on t and x; thorough: depth<=2 over the 25-atom safe core on t and x). Distinct = distinct (predicate, table, form); non-trivial = the model's value is not the same for all 125 rows. Blame is per row: a row counts against p only if every proper boolean sub-expression of p agrees with the model on that row.",
+            "a case is one (predicate, table, observation form): table = full cross product a{NULL,-1,0,1,2} x b{NULL,-1.0,0.5,1.0,2.0} x c{NULL,'','a','ab','b'} (125 rows) with id PRIMARY KEY (t), plain id (n), or PRIMARY KEY plus secondary indexes on a and c (x); form = `SELECT id FROM tb WHERE p` (returned id set vs rows where the model says TRUE) or `SELECT id, p FROM tb WHERE 1=1` (TRUE/FALSE/NULL per row). Predicates: every atom of refmodel atoms(schema, Consts::c14()) (comparisons col/const/NULL/col-col x 6 operators, IS [NOT] NULL, [NOT] IN with/without NULL, [NOT] BETWEEN with/without NULL bound, [NOT] LIKE) and its NOT, IS [NOT] NULL over every atom, 21 id-column atoms (index-eligible) alone, negated and AND/OR-combined with the core in both operand orders, all NOT/AND/OR trees to the stated depth over the 40-atom core (quick: depth<=1 + one outer NOT; thorough: depth<=1 over all atoms, depth<=2 over the core, time-capped), and the B passes = AND/OR trees over the atoms without the constructs of the recorded findings (quick: depth<=1 over all such atoms, depth<=2 over a 8-atom mini core on t and x; thorough: depth<=2 over the 25-atom safe core on t and x). Distinct = distinct (predicate, table, form); non-trivial = the model's value is not the same for all 125 rows. Blame is per row: a row counts against p only if every proper boolean sub-expression of p agrees with the model on that row.",
         );
         s.assumptions = &[
             "oracle = refmodel::sql::expr::Expr::eval_truth (Kleene logic, cross-checked against SQLite); rows on which the model raises Overflow/DivZero/Type are skipped and counted",
